@@ -111,4 +111,86 @@ mod verif_replay {
             std::thread::sleep(Duration::from_millis(150));
         }
     }
+
+    //@REFRULES
+
+    /// the position a `position ...` command describes, per the reference rules
+    fn ref_position(pos: &str) -> refrules::Pos {
+        let t: Vec<&str> = pos.split_whitespace().collect();
+        let (mut p, mut i) = if t[0] == "startpos" { (refrules::from_fen("rnbqkbnr/pppppppp/8/8/8/8/PPPPPPPP/RNBQKBNR w KQkq - 0 1"), 1) }
+            else { let j = t.iter().position(|x| *x == "moves").unwrap_or(t.len()); (refrules::from_fen(&t[1..j].join(" ")), j) };
+        if i < t.len() && t[i] == "moves" { i += 1; }
+        for m in &t[i..] { let mv = refrules::legal(&p).into_iter().find(|x| x.text() == *m).expect("test position move list is legal"); p = refrules::play(&p, mv); }
+        p
+    }
+
+    /// C09: every go -- whatever the limits, however small -- is answered by exactly one bestmove naming a legal move of the
+    /// current position, in time, and the engine then takes the next command
+    #[test]
+    fn c09_go_answered_over_uci() {
+        let limits = ["depth 1", "depth 2", "nodes 1", "nodes 2", "nodes 57", "movetime 0", "movetime 1", "movetime 40",
+                      "wtime 0 btime 0", "wtime 1 btime 1", "wtime 30 btime 30 winc 5 binc 5", "wtime 2000 btime 2000",
+                      "depth 3 nodes 10", "nodes 300 movetime 50", "winc 1 binc 1"];
+        let mut e = Engine::start();
+        e.send("uci"); e.until("uciok", 20).expect("uciok");
+        let positions: Vec<&str> = POSITIONS.iter().copied().chain(["fen 7k/8/8/8/1p6/pPp5/PRP5/KB6 b - - 0 1", "fen 4k3/8/8/8/8/8/4q3/4K3 w - - 0 1",
+            "fen r3k2r/8/8/8/8/8/8/R3K2R w KQkq - 0 1", "fen 8/P7/8/8/8/8/7p/K6k w - - 0 1"]).collect();
+        for (pi, pos) in positions.iter().enumerate() {
+            let want = ref_position(pos);
+            let legal: Vec<String> = refrules::legal(&want).iter().map(|m| m.text()).collect();
+            if legal.is_empty() { continue; }
+            for (li, lim) in limits.iter().enumerate() {
+                if (pi + li) % 3 != 0 { continue; }   // a third of the grid per position
+                e.send(&format!("position {pos}"));
+                e.send(&format!("go {lim}"));
+                let lines = e.until("bestmove", 60).unwrap_or_else(|| panic!("C09: `go {lim}` on `position {pos}` was not answered within 60 s"));
+                let bm = lines.last().unwrap().split_whitespace().nth(1).unwrap_or("").to_string();
+                assert!(legal.contains(&bm), "C09: `go {lim}` on `position {pos}` answered `{}`: not a legal move of the position (legal: {legal:?})", lines.last().unwrap());
+                // exactly one: nothing else that starts with bestmove arrives before the engine answers isready
+                std::thread::sleep(Duration::from_millis(120));
+                e.send("isready");
+                let rest = e.until("readyok", 30).unwrap_or_else(|| panic!("C09: engine does not answer isready after `go {lim}` on `position {pos}`"));
+                assert!(!rest.iter().any(|l| l.starts_with("bestmove")), "C09: a second bestmove line after `go {lim}` on `position {pos}`: {rest:?}");
+            }
+        }
+        // go infinite is answered once stop arrives
+        e.send("position startpos"); e.send("go infinite");
+        std::thread::sleep(Duration::from_millis(300));
+        e.send("stop");
+        let lines = e.until("bestmove", 30).expect("C09: stop does not end `go infinite` with a bestmove");
+        assert!(is_move(lines.last().unwrap().split_whitespace().nth(1).unwrap_or("")), "C09: malformed bestmove after stop");
+    }
+
+    /// C15: no input line kills or wedges the engine: after each malformed line it still answers isready, and quit ends it
+    #[test]
+    fn c15_bad_input_over_uci() {
+        let lines: Vec<Vec<u8>> = vec![
+            b"go wtime".to_vec(), b"go depth".to_vec(), b"go depth x".to_vec(), b"go nodes -1".to_vec(), b"go movetime 99999999999999999999999".to_vec(),
+            b"go wtime 1 btime".to_vec(), b"go mate".to_vec(), b"go searchmoves".to_vec(), b"go ponder ponder".to_vec(),
+            b"setoption".to_vec(), b"setoption name".to_vec(), b"setoption name value".to_vec(), b"setoption value 1 name Hash".to_vec(),
+            b"setoption name Hash value".to_vec(), b"setoption name  value  ".to_vec(), b"setoption name a name b value c value d".to_vec(),
+            b"position".to_vec(), b"position fen".to_vec(), b"position startpos moves".to_vec(), b"position startpos moves e2e5".to_vec(),
+            b"position startpos moves zz".to_vec(), b"position moves e2e4".to_vec(), b"position fen moves".to_vec(),
+            b"".to_vec(), b"   ".to_vec(), b"\t".to_vec(), b"xyzzy".to_vec(), b"uci uci uci".to_vec(), b"isready now".to_vec(), b"stop".to_vec(), b"ponderhit".to_vec(),
+            b"debug".to_vec(), b"debug maybe".to_vec(), b"register".to_vec(), b"ucinewgame extra".to_vec(),
+            vec![0xff, 0xfe, b'g', b'o'], vec![b'g', b'o', b' ', 0xc3, 0x28], "go d\u{e9}pth 3".as_bytes().to_vec(),
+            std::iter::repeat(b'a').take(5000).collect(), [b"position startpos moves ".to_vec(), b"e2e4 e7e5 ".repeat(400)].concat(),
+        ];
+        let mut e = Engine::start();
+        e.send("uci"); e.until("uciok", 20).expect("uciok");
+        for l in lines.iter() {
+            e.stdin.write_all(l).unwrap(); e.stdin.write_all(b"\n").unwrap(); e.stdin.flush().unwrap();
+            e.send("isready");
+            if e.until("readyok", 20).is_none() {
+                let st = e.child.try_wait().ok().flatten();
+                panic!("C15: after the input line {:?} the engine no longer answers isready (exit status {st:?})", String::from_utf8_lossy(l));
+            }
+        }
+        // a position that was loaded before the noise is still usable
+        e.send("position startpos moves e2e4"); e.send("go depth 1");
+        e.until("bestmove", 30).expect("C15: engine does not search after malformed input");
+        e.send("quit");
+        for _ in 0..50 { if e.child.try_wait().unwrap().is_some() { return; } std::thread::sleep(Duration::from_millis(100)); }
+        panic!("C15: quit does not end the engine within 5 s");
+    }
 }
